@@ -172,6 +172,8 @@ let rec pipe_of_sx (x : sx) : pipe =
   | L [A "result_err"; e] -> PFromResult (Inr (atom_nat e))
   | L [A "hot"; h] -> PHot (atom_nat h)
   | L [A "conn"; k] -> PConn (atom_nat k)
+  | L [A "manual"; s] -> PManual (atom_nat s)
+  | L [A "ref"; i] -> PRef (atom_nat i)
   | L (A "op" :: A name :: L ps :: src :: others) ->
       POp (op_of_sx name ps, pipe_of_sx src, List.map pipe_of_sx others)
   | _ -> failwith ("bad pipe " ^ sx_to_string x)
@@ -181,6 +183,7 @@ let rec reaction_of_sx = function
   | L [A "unsub"; k] -> RUnsub (atom_nat k)
   | L [A "emit"; h; e] -> REmit (atom_nat h, ev_of_sx e)
   | L [A "sub"; k; p] -> RSub (atom_nat k, pipe_of_sx p)
+  | L [A "push"; s; e] -> RPush (atom_nat s, ev_of_sx e)
   | x -> failwith ("bad reaction " ^ sx_to_string x)
 
 let action_of_sx = function
@@ -191,6 +194,7 @@ let action_of_sx = function
   | L [A "emit"; h; e] -> DEmit (atom_nat h, ev_of_sx e)
   | L [A "connect"; k; x] -> DConnect (atom_nat k, atom_nat x)
   | L [A "disconnect"; x] -> DDisconnect (atom_nat x)
+  | L [A "push"; s; e] -> DPush (atom_nat s, ev_of_sx e)
   | x -> failwith ("bad action " ^ sx_to_string x)
 
 let field name (l : sx list) : sx list =
@@ -221,7 +225,8 @@ let scenario_of_sx (x : sx) : scenario =
           | L [A "replay"; p] -> (CReplay, pipe_of_sx p)
           | x -> failwith ("bad conn " ^ sx_to_string x)) (field "conns" fs) in
       let handles = (match field "handles" fs with [h] -> atom_nat h | _ -> O) in
-      { sc_scripts = srcs; sc_subjects = subjects; sc_conns = conns; sc_handles = handles;
+      let defs = List.map pipe_of_sx (field "defs" fs) in
+      { sc_scripts = srcs; sc_subjects = subjects; sc_conns = conns; sc_defs = defs; sc_handles = handles;
         sc_script = List.map action_of_sx (field "script" fs) }
   | _ -> failwith "bad scenario"
 
